@@ -51,6 +51,7 @@ type Ctx struct {
 	rule   *Rule
 	obs    []Obligation
 	emMemo []*Emission
+	replayMemo *replayModel
 	mapUpd map[ssa.Value][]*ssa.MapUpdate
 }
 
